@@ -205,7 +205,7 @@ CHECKS = {
     },
     "C03": {
         "lean": ["DrummerVerif.Props.C03"],
-        "streams": [dbstream("c03", 250, 4000, None, replicas=True), dbstream("general", 150, 2000, None, replicas=True)],
+        "streams": [dbstream("c03", 250, 4000, None, replicas=True), dbstream("general", 150, 2000, None, replicas=True), dbstream("c09", 80, 1200, None, replicas=True)],
         "rule": RULE_DB % "c03 (snapshot heavy); every sequence is run on replica A (straight), replica B (restored from A's snapshot at a random prefix) and A' (a repeated run); results, hashes, dumps and the scheduler-context query are compared among the Go replicas and with the model",
         "assumptions": DB_ASSUME + ["md5 collisions ignored (hashes compared as equal/unequal)"],
     },
